@@ -224,6 +224,23 @@ CLAIMS.update({
         ref="§7 C18"),
 })
 
+CLAIMS.update({
+    "C19": dict(
+        technique="Lean 4 congruence proof that the language tag acts only through the rule list and the keyword table (two tags with equal tables evaluate every line identically; parser and interpreter have no language parameter) + kernel-decided completeness obligations on the per-language tables regenerated from config.json + word-by-word translation parity check",
+        text="Proof (every number type): the language reaches the layers behind the lexer only through its rule list and keyword->constant table: equal "
+             "tables give identical evaluation of EVERY token list (applyRule_lang, rulePass_lang, ruleLoop_lang, evalInfos_lang); parser and "
+             "interpreter take no language, so lines the rewrite layers leave alone evaluate identically (wordless_same); a duration keyword acts only "
+             "through its constant, so words of two languages mapping to one constant denote one duration (parse_kind). Data obligations re-decided "
+             "by the kernel after regeneration: every language has a word for every constant (constants_complete), every duration-group word is a "
+             "duration keyword (duration_words_known), alias words for + - * exist and operator aliases are operator atoms (operator_words), 12 months "
+             "with printing names and every spelling mapping into 1..12 (months_complete), date and duration formats complete (formats_complete), each "
+             "language's rule functions are en's (rules_subset). Parity itself is decided on the implementation: word-by-word translations en->tr of "
+             "operator-word arithmetic, durations, dates (every month spelling), date arithmetic and day keywords give identical values; tr output "
+             "uses only tr month names / unit words; word-free lines give identical values and outputs. One defect repaired in /repo (month spellings).",
+        note="Trusted: Lean kernel + 3 axioms; alias / keyword / month lexing is regex code outside the model (exercised); features a language configures no words for are not demanded.",
+        ref="§7 C19"),
+})
+
 NOT_YET = {}
 
 
